@@ -127,3 +127,20 @@ def mean_crossings(x, y, step):
 
 def ambiguous(y, step):
     return any(len(ceil_options(v, step)) > 1 for v in y)
+
+
+def mean_crossing_options(x, y, step):
+    """All {level: (exact mean crossing, tol)} mappings obtainable from a
+    consistent choice of ceil at ambiguous samples (first = exact choice)"""
+    opts = [ceil_options(v, step) for v in y]
+    exact = tuple(exact_ceil(Fraction(v) / Fraction(step)) for v in y)
+    combos = [exact] + [c for c in itertools.product(*opts) if c != exact]
+    out = []
+    for ceils in combos:
+        by = {}
+        for n, xs, tol, _ in expected_for(x, y, step, ceils):
+            by.setdefault(n, []).append((xs, tol))
+        out.append({n: (sum(v for v, _ in vals) / len(vals),
+                        max(t for _, t in vals))
+                    for n, vals in by.items()})
+    return out
